@@ -57,9 +57,32 @@ pub struct EngineJob {
     pub overrides: Vec<ArgOverride>,
     #[serde(default)]
     pub record_schedule: bool,
+    /// taps: the named internal bit of `party` at `idx` is flipped
+    #[serde(default)]
+    pub taps: Vec<TapSpec>,
+    /// record probe events (delta, bucket permutation, first KOS coefficient)
+    #[serde(default)]
+    pub probes: bool,
     /// free-form tag copied to the output (scenario description)
     #[serde(default)]
     pub tag: Value,
+}
+
+#[derive(Deserialize, Serialize, Clone, Debug)]
+pub struct TapSpec {
+    pub party: usize,
+    pub name: String,
+    pub idx: usize,
+}
+
+#[derive(Serialize, Clone, Debug)]
+pub struct ProbeEv {
+    pub name: String,
+    pub p: usize,
+    /// each value as eight 16-bit limbs, least significant first
+    pub vals: Vec<Vec<u32>>,
+    /// number of channel operations completed when the probe fired
+    pub seq: usize,
 }
 
 #[derive(Serialize, Clone, Debug)]
@@ -82,6 +105,8 @@ pub struct EngineRun {
     pub tmp_left: usize,
     pub peak_alloc: usize,
     pub applied: Vec<bool>,
+    pub probes: Vec<ProbeEv>,
+    pub taps_hit: usize,
 }
 
 /// `MpcError(InvalidOutputMac(Reg(3)))` -> `MpcError.InvalidOutputMac`
@@ -171,6 +196,34 @@ pub fn run_engine(job: &EngineJob, work: &std::path::Path) -> EngineRun {
             },
         });
     }
+    let probes: Rc<RefCell<Vec<ProbeEv>>> = Rc::new(RefCell::new(vec![]));
+    if job.probes {
+        let sink = probes.clone();
+        let netp = net.clone();
+        polytune::verif::set_probe(Some(Box::new(move |name, p, vals| {
+            // try_borrow: a probe may fire while the network is borrowed by a send
+            let seq = netp.try_borrow().map(|n| n.log.len()).unwrap_or(0);
+            sink.borrow_mut().push(ProbeEv {
+                name: name.to_string(),
+                p,
+                vals: vals.iter().map(|v| crate::adv::limbs(*v)).collect(),
+                seq,
+            });
+        })));
+    }
+    let taps_hit = Rc::new(RefCell::new(0usize));
+    if !job.taps.is_empty() {
+        let taps = job.taps.clone();
+        let hit = taps_hit.clone();
+        polytune::verif::set_tap(Some(Box::new(move |name, p, idx, v| {
+            if taps.iter().any(|t| t.party == p && t.name == name && t.idx == idx) {
+                *hit.borrow_mut() += 1;
+                !v
+            } else {
+                v
+            }
+        })));
+    }
     let mut sched = Scheduler::new(job.policy.clone());
     sched.record_taken = job.record_schedule;
     alloc::reset_peak();
@@ -192,6 +245,8 @@ pub fn run_engine(job: &EngineJob, work: &std::path::Path) -> EngineRun {
         run(&net, futs, &mut sched, 50_000_000)
     };
     let peak_alloc = alloc::peak();
+    polytune::verif::set_probe(None);
+    polytune::verif::set_tap(None);
     let mut tmp_left = 0;
     for d in &tmp_dirs {
         if let Ok(rd) = std::fs::read_dir(d) {
@@ -253,6 +308,8 @@ pub fn run_engine(job: &EngineJob, work: &std::path::Path) -> EngineRun {
         tmp_left,
         peak_alloc,
         applied,
+        probes: probes.borrow().clone(),
+        taps_hit: *taps_hit.borrow(),
     }
 }
 
@@ -284,6 +341,9 @@ pub fn to_ndjson(job: &EngineJob, r: &EngineRun, out: &mut Vec<String>) {
         }
         out.push(v.to_string());
     }
+    for pe in &r.probes {
+        out.push(json!({"ev": "probe", "name": pe.name, "p": pe.p, "vals": pe.vals, "seq": pe.seq}).to_string());
+    }
     for pr in &r.results {
         out.push(
             json!({"ev": "res", "p": pr.p, "kind": pr.kind, "out": pr.out, "err": pr.err, "detail": pr.detail})
@@ -293,6 +353,7 @@ pub fn to_ndjson(job: &EngineJob, r: &EngineRun, out: &mut Vec<String>) {
     out.push(
         json!({"ev": "end", "run": job.id, "steps": r.steps, "drift": r.drift, "maxout": net.max_outstanding,
                "tmpleft": r.tmp_left, "peak": r.peak_alloc, "brecv": net.bytes_recv, "applied": r.applied,
+               "taps_hit": r.taps_hit,
                "sched": r.schedule.iter().map(|(p,d,q)| json!([p, d, q])).collect::<Vec<_>>() })
         .to_string(),
     );
